@@ -106,6 +106,8 @@ type FnCtx struct {
 	assumptionsUsed map[string]bool
 	quantN int
 	letDefs []LetDef
+	curEntry *State
+	lastFrameNames []string
 	loopGhost map[string]*Term
 	qdepth int
 	log *writeLog
